@@ -620,11 +620,11 @@ const findingShadow = "C06-alias-shadows-visible-variable"
 // are visible where the alias is computed (and drop shipped queries that are spelled that way).
 func shadowExcluded() bool { return evid.R.KnownOpen(findingShadow) }
 
-const findingLiveness = "C06-symbol-keyed-liveness-ignores-scopes"
+const findingLiveness = "C06-symbol-keyed-analyses-ignore-scopes"
 
 // openFlags: the separation rules that the open findings switch on.
 func openFlags() sepFlags {
-	return sepFlags{strict: shadowExcluded(), perPart: evid.R.KnownOpen(findingLiveness)}
+	return sepFlags{strict: shadowExcluded(), symbolLevel: evid.R.KnownOpen(findingLiveness)}
 }
 
 // avoidOrderByHazard: while the ORDER BY finding is listed as open, result columns of a query whose final
@@ -691,23 +691,44 @@ func flipCase(s string) string {
 	return s + "X"
 }
 
-// repair makes names admissible by giving fresh names to classes that clash.
+// repair makes names admissible by giving fresh names to classes (or, for symbol-level renamings, to groups of
+// classes that are spelled the same) that clash.
 func repair(an *analysis, names []string, f sepFlags) {
-	conf := an.conflicts(f)
-	for i := range names {
-		for j := range conf[i] {
-			if j < i && names[i] == names[j] {
-				names[i] = fmt.Sprintf("r%d_%s", i, an.classes[i].Orig)
-				break
+	group := make([]int, len(names))
+	first := map[string]int{}
+	for i, c := range an.classes {
+		group[i] = i
+		if f.symbolLevel && c.Kind != kParam {
+			if j, seen := first[c.Orig]; seen {
+				group[i] = j
+			} else {
+				first[c.Orig] = i
 			}
 		}
 	}
-	// a later class that kept its name may now clash with an earlier fresh one: fresh names are unique, one more pass suffices
 	for i := range names {
-		for j := range conf[i] {
-			if j > i && names[i] == names[j] {
-				names[j] = fmt.Sprintf("r%d_%s", j, an.classes[j].Orig)
+		names[i] = names[group[i]]
+	}
+	conf := an.conflicts(f)
+	for pass := 0; pass < 4; pass++ {
+		clash := false
+		for i := range names {
+			for j := range conf[i] {
+				if j < i && names[i] == names[j] && group[i] != group[j] {
+					g := group[i]
+					fresh := fmt.Sprintf("r%d_%s", g, an.classes[g].Orig)
+					for k := range names {
+						if group[k] == g {
+							names[k] = fresh
+						}
+					}
+					clash = true
+					break
+				}
 			}
+		}
+		if !clash {
+			break
 		}
 	}
 }
@@ -778,7 +799,7 @@ func genCorpus(t *rapid.T) Case {
 }
 
 func TestC06Corpus(t *testing.T) {
-	evid.Prop(t, "corpus", evid.R.N(4000, 40000), genCorpus, oracle)
+	evid.Prop(t, "corpus", evid.R.N(3000, 30000), genCorpus, oracle)
 }
 
 // sweep: systematic hostile renamings of every translatable shipped query.
